@@ -228,7 +228,9 @@ func TestC18Punishment(t *testing.T) {
 				}
 				punished++
 				punishedNow = append(punishedNow, *cand)
-				for _, s := range cand.Stakes {
+				// delegations and rewards that wait for the next recalculation (pending updates) are stakes
+				// of the validator as well
+				for _, s := range append(append([]types.Stake{}, cand.Stakes...), cand.Updates...) {
 					sl := c18Ceil5(sim.B(s.Value))
 					wantSlash = append(wantSlash, fmt.Sprintf("%s/%s/%d/%s", s.Owner.String(), sl, s.Coin, cand.PubKey.String()))
 					if s.Coin != 0 {
@@ -253,6 +255,11 @@ func TestC18Punishment(t *testing.T) {
 				for _, s := range ds.Candidates.GetStakes(pc.PubKey) {
 					if s.Value.Sign() != 0 {
 						violation(t, "c18-stake-kept", r, "BeginBlock(%d): stake of %s in coin %d at punished candidate %d is still %s", hh, s.Owner.String(), s.Coin, pc.ID, s.Value)
+					}
+				}
+				for _, u := range ds.Candidates.VerifPendingUpdates(pc.PubKey) {
+					if sim.B(u.Value).Sign() != 0 {
+						violation(t, "c18-stake-kept", r, "BeginBlock(%d): pending delegation of %s in coin %d at punished candidate %d is still %s (it becomes an unslashed stake at the next validator update)", hh, u.Owner.String(), u.Coin, pc.ID, u.Value)
 					}
 				}
 				if v := ds.Validators.GetByTmAddress(sim.TmAddr(pc.PubKey)); v == nil || !v.IsToDrop() {
@@ -304,7 +311,7 @@ func TestC18Punishment(t *testing.T) {
 			if len(punishedNow) > 0 {
 				cur := n.Export()
 				for _, pc := range punishedNow {
-					for _, ps := range pc.Stakes {
+					for _, ps := range append(append([]types.Stake{}, pc.Stakes...), pc.Updates...) {
 						rest := new(big.Int).Sub(sim.B(ps.Value), c18Ceil5(sim.B(ps.Value)))
 						found := false
 						for _, f := range cur.FrozenFunds {
